@@ -15,7 +15,7 @@ EV_OP, EV_OP_RET, EV_HOOK_START, EV_HOOK_STOP, EV_CB, EV_LATE, EV_FAULT, EV_RES,
 (OP_CREATE, OP_THREADS_CREATE, OP_ATTACH_FIRST, OP_SENDERS_START, OP_SENDERS_STOP, OP_ARM_EVENTS,
  OP_SHUTDOWN_MAIN, OP_SHUTDOWN_EXT, OP_SHUTDOWN_POOL, OP_WAIT_MAIN, OP_WAIT_POOL, OP_DESTROY_MAIN, OP_DESTROY_POOL,
  OP_SLEEP_US, OP_GO, OP_JOIN_HELPERS, OP_THREADS_CREATE_AGAIN, OP_GATE, OP_FLOOD, OP_UNGATE, OP_WAIT_T0,
- OP_CLOSE_STDIN, OP_DETTACH) = range(1, 24)
+ OP_CLOSE_STDIN, OP_DETTACH, OP_FORCE_SEND) = range(1, 25)
 OPN = {v: k for k, v in list(globals().items()) if k.startswith("OP_")}
 FK = ["none", "calloc", "epoll_create1", "pipe2", "epoll_ctl", "pthread_create"]
 EBUSY, EDEADLK = 16, 35
@@ -156,6 +156,19 @@ def gen_histories(tier, seed):
             ops += [(OP_THREADS_CREATE, 0), (OP_SLEEP_US, 300), (OP_SHUTDOWN_MAIN, 0), (OP_WAIT_MAIN, 1)]
         ops += [(OP_DESTROY_MAIN, 0)]
         out.append(mk(rng, ops, family="stdin-closed", **st))
+    # a second tp_threads_create(tp, 0) while slot 0 is run by the thread that attached itself (its pt_id is unset by design)
+    for i in range(3 * scale):
+        st = settings()
+        ops = [(OP_CREATE, 0), (OP_THREADS_CREATE, 1), (OP_ATTACH_FIRST, 0), (OP_WAIT_T0, 0), (OP_THREADS_CREATE_AGAIN, 0),
+               (OP_SLEEP_US, rng.choice([300, 3000])), (OP_SHUTDOWN_MAIN, 0), (OP_JOIN_HELPERS, 0), (OP_WAIT_MAIN, 1), (OP_DESTROY_MAIN, 0)]
+        out.append(mk(rng, ops, family="create-again-while-attached", **st))
+    # forced sends to threads that do not run yet (callback runs in place), the threads are started afterwards, then shut down
+    for i in range(3 * scale):
+        st = settings()
+        pool = st["pool"]
+        ops = [(OP_CREATE, 0)] + [(OP_FORCE_SEND, rng.below(pool)) for _ in range(rng.range(1, 4))]
+        ops += [(OP_THREADS_CREATE, 0), (OP_SLEEP_US, 300), (OP_SHUTDOWN_MAIN, 0), (OP_WAIT_MAIN, 1), (OP_DESTROY_MAIN, 0)]
+        out.append(mk(rng, ops, family="force-send-before-start", **st))
     # tp_thread_dettach() on a slot that has no thread in its event loop: reserved but never attached, or attached and left again
     for i in range(4 * scale):
         st = settings()
